@@ -262,6 +262,10 @@ def Mul(a, b):
                 return _mk_int(0)
             if x.args[0] == 1:
                 return y
+    if a.op != "#int" and b.op != "#int":
+        # product of two non-constants: printed through `nlmul`, which the preamble either defines as `*`
+        # or leaves uninterpreted (sound abstraction used as one more back-end strategy)
+        return Term("nlmul", (a, b), "Int")
     return Term("*", (a, b), "Int")
 
 
@@ -533,4 +537,4 @@ def _rb_mul(*a):
     return r
 
 
-_REBUILD.update({"+": _rb_add, "-": _rb_sub, "*": _rb_mul, "div": Div, "mod": Mod})
+_REBUILD.update({"+": _rb_add, "-": _rb_sub, "*": _rb_mul, "nlmul": _rb_mul, "div": Div, "mod": Mod})
